@@ -1,5 +1,5 @@
 (* C10 — Time lookups return the first live message at or after the given time. *)
-From KV Require Import Base Model Spec SearchProofs LogInv GetProofs History KeyProofs KeyInv TimeProofs TimeInv ReadsPreserve.
+From KV Require Import Base Model Spec SearchProofs LogInv GetProofs History KeyProofs KeyInv TimeProofs TimeInv ReadsPreserve OffsetProofs.
 
 (* For every state of a session whose index files are the derived ones (KInv, proved for every reachable
    state of a session that keeps its options), whose index timestamps equal the message times (TS) and whose
@@ -97,3 +97,17 @@ Theorem C10_F11_negative_times_refuted :
   check_get_by_time (abs f11_state) true (-4) (obs_get (log_get_by_time f11_hash f11_state (-4))) = false.
 Proof. split; vm_compute; reflexivity. Qed.
 Print Assumptions C10_F11_negative_times_refuted.
+
+(* OffsetByTime (log.go: GetByTime, then offset and time of what it found) on every state reached by a monotone
+   history: offset and time of the first live message not before ts; an error exactly when there is none *)
+Theorem C10_offset_by_time_on_monotone_histories :
+  forall (H : bytes -> Z) p ops c ts,
+  Forall (uses p) ops -> thist_ok 0 ops ->
+  let st := fst (hrun H init_state ops) in
+  opened st = Some c -> lvirt st = false -> ctimes c = true ->
+  match log_offset_by_time H st ts with
+  | Ok (_, (o, t)) => exists m, find (fun m => ts <=? mtime m) (live (abs st)) = Some m /\ moff m = o /\ mtime m = t
+  | Err e => find (fun m => ts <=? mtime m) (live (abs st)) = None
+  end.
+Proof. exact OffsetProofs.offset_by_time_on_monotone_histories. Qed.
+Print Assumptions C10_offset_by_time_on_monotone_histories.
